@@ -61,7 +61,7 @@ package configure
 //@ method (Configure).Initialize
 //@ property C13 C09
 //@ assigns everything
-//@ ensures [failure-recorded] Failed == (old(Failed) || result != nil)
+//@ ensures [failure-surfaces] implies(result == nil, Failed == old(Failed))
 //@ ensures [no-runner] RanLen == old(RanLen) && RanAt == old(RanAt) && RanSrc == old(RanSrc)
 //@ ensures [not-refreshed] Refreshed == old(Refreshed)
 
@@ -87,7 +87,7 @@ package configure
 //@ ensures [fed-in-load-order] forall(f, int, forall(g, int, implies(fed0 <= f && f < g && g < FedLen, FedFrom[f] < FedFrom[g]), FedFrom[g]), FedFrom[f])
 //@ ensures [nonempty-loads-fed] implies(result == nil, forall(k, int, implies(load0 <= k && k < LoadLen && len(LoadOut[k]) != 0, fed0 <= FedOf[k] && FedOf[k] < FedLen && FedFrom[FedOf[k]] == k), LoadOut[k]))
 //@ ensures [stops-at-first-error] implies(result != nil, LoadLen > load0 && LoadLen <= load0 + n)
-//@ ensures [failure-recorded] Failed == (old(Failed) || result != nil)
+//@ ensures [failure-surfaces] implies(result == nil, Failed == old(Failed))
 //@ ghost after call LoadConfig: LoadSrc = store(LoadSrc, LoadLen - 1, tag(c.loaders, i))
 //@ ghost after call SetConfig: FedFrom = store(FedFrom, FedLen - 1, LoadLen - 1)
 //@ ghost after call SetConfig: FedOf = store(FedOf, LoadLen - 1, FedLen - 1)
